@@ -112,6 +112,7 @@ func flipInput(r *Rng, in []rune, all bool) []rune {
 }
 
 var ciTemplates = []string{
+	`[\s\S-[a]]`, `[\w\W-[b]]+`, `[\d\D-[é]]x`, `[\s\S-[x-z]]`, `[a-z-[\w\W-[e]]]`, `(a)a(?<=\1)`, `(?<=\1b)(a)`, `(é)x(?<=\1x)`, `(a)(?<=\1)b`,
 	`[a-z-[b]]`, `[a-c-[b]]+`, `[^a-c-[b]]`, `[a-zé-[e-z]]x`, `[\w-[a-c]]+`, `[a-z-[aeiou]]{2}`, `[a-z-[b-y-[c]]]`,
 	`abc`, `a+b`, `(a|B)c`, `[abc]+z`, `[^abc]z`, `é+`, `äb`, `αλ`, `яд`, `[α-λ]`, `[а-я]+`, `(?:ab|AC)z`, `a(?=b)`, `(?<=a)b`, `(?<!a)b`, `a(?!b)`,
 	`(a)\1`, `(ab)c\1`, `(?<n>[a-c])\k<n>`, `(é)x\1`, `(a|b)\1+`, `([a-c]+)-\1`,
@@ -128,6 +129,9 @@ func legCase(c *Ctx) {
 	var pats []cp
 	for _, t := range ciTemplates {
 		pats = append(pats, cp{t, false}, cp{t, true})
+	}
+	for _, t := range []string{`\1(a)`, `\1b(a)`, `\k<n>(?<n>[a-c])`, `\1+(é)`} {
+		pats = append(pats, cp{t, true}) // backreference evaluated right-to-left
 	}
 	n := c.N(2500, 40000)
 	for i := 0; i < n; i++ {
@@ -176,8 +180,24 @@ func legCase(c *Ctx) {
 		if strings.Contains(p.pat, `\1`) || strings.Contains(p.pat, `\k<`) {
 			hits["backref"]++
 		}
-		for k := 0; k < c.N(10, 30); k++ {
+		nIn := c.N(10, 30)
+		if len(p.pat) < 16 {
+			nIn = c.N(60, 200) // the hand-written templates are few and cheap: many more inputs each
+		}
+		for k := 0; k < nIn; k++ {
 			in := randString(c.Rng, alphabet, 7)
+			if k%3 == 0 {
+				// short inputs made only of the pattern's own letters in both cases
+				var ls []rune
+				for _, ch := range p.pat {
+					if unicode.IsLetter(ch) {
+						ls = append(ls, ch, swapCase(ch))
+					}
+				}
+				if len(ls) > 0 {
+					in = randString(c.Rng, ls, 5)
+				}
+			}
 			// seed the input with the pattern's own letters so that matches are frequent
 			for _, ch := range p.pat {
 				if unicode.IsLetter(ch) && c.Rng.Chance(30) && len(in) > 0 {
